@@ -7,10 +7,53 @@ open Sx Pcore.ValueEq
 def intOk (i : Int) : Bool := minInt ≤ i && i ≤ maxInt
 def u64Ok (n : Nat) : Bool := n < 18446744073709551616
 
+/-- a version `(MAJ MIN PAT xPRE xBUILD)`: the arguments of `semver.NewVersion3` -/
+def verOf : List Sexp → Option Ver
+  | [ma, mi, pa, pre, bld] => do
+      let a ← ma.int?; let b ← mi.int?; let c ← pa.int?
+      let p ← pre.bytes?; let q ← bld.bytes?
+      if intOk a && intOk b && intOk c then newVersion3 a b c p q else none
+  | _ => none
+
+def boundOf : Sexp → Option Bound
+  | .list (.atom "eq" :: v) => (verOf v).map fun v => ⟨.eq, v⟩
+  | .list (.atom "ge" :: v) => (verOf v).map fun v => ⟨.ge, v⟩
+  | .list (.atom "gt" :: v) => (verOf v).map fun v => ⟨.gt, v⟩
+  | .list (.atom "le" :: v) => (verOf v).map fun v => ⟨.le, v⟩
+  | .list (.atom "lt" :: v) => (verOf v).map fun v => ⟨.lt, v⟩
+  | _ => none
+
+def arangeOf : Sexp → Option ARange
+  | .list [.atom "se", a, b] => do let x ← boundOf a; let y ← boundOf b; pure (.se x y)
+  | e => (boundOf e).map .simple
+
 partial def tyOf : Sexp → Option Ty
   | .atom "any" => some .any
   | .atom "undef" => some .undef
   | .atom "str" => some .str
+  | .atom "dflt" => some (.nul .dflt) | .atom "unit" => some (.nul .unit) | .atom "scalar" => some (.nul .scalar)
+  | .atom "scalardata" => some (.nul .scalarData) | .atom "numeric" => some (.nul .numeric) | .atom "binary" => some (.nul .binary)
+  | .atom "data" => some (.nul .data) | .atom "richdata" => some (.nul .richData) | .atom "semverrange" => some (.nul .semverRange)
+  | .list [.atom "bool", .atom "n"] => some (.bool none)
+  | .list [.atom "bool", b] => b.bool?.map fun b => .bool (some b)
+  | .list [.atom "coll", lo, hi] => do
+      let l ← lo.int?; let h ← hi.int?
+      if intOk l && intOk h && l ≤ h then some (.coll l h) else none
+  | .list [.atom "notundef", t] => (tyOf t).map (.un .notUndef)
+  | .list [.atom "sensitive", t] => (tyOf t).map (.un .sensitive)
+  | .list [.atom "iterable", t] => (tyOf t).map (.un .iterable)
+  | .list [.atom "iterator", t] => (tyOf t).map (.un .iterator)
+  | .list [.atom "strs", lo, hi] => do
+      let l ← lo.int?; let h ← hi.int?
+      if intOk l && intOk h && l ≤ h then some (mkStr l h []) else none
+  | .list [.atom "strv", v] => do let v ← v.bytes?; if v.isEmpty then none else some (mkStr 0 maxInt v)
+  | .list [.atom "rx", p] => p.bytes?.map .rx
+  | .list (.atom "pat" :: ps) => (ps.mapM (fun (e : Sexp) => e.bytes?)).map .pattern
+  | .list [.atom "tref", s] => s.bytes?.map .tref
+  | .atom "semver" => some (.semverT [0x2a] matchAllR)          -- `DefaultSemVerType()`: the range `*`
+  | .list (.atom "semver" :: orig :: rs) => do
+      let o ← orig.bytes?; let rs ← rs.mapM arangeOf
+      if rs.isEmpty then none else some (.semverT o rs)
   | .list [.atom "int", lo, hi] => do
       let l ← lo.int?; let h ← hi.int?
       if intOk l && intOk h && l ≤ h then some (.int l h) else none
@@ -32,26 +75,6 @@ partial def tyOf : Sexp → Option Ty
   | .list [.atom "opt", t] => (tyOf t).map .opt
   | .list [.atom "typ", t] => (tyOf t).map .typ
   | _ => none
-
-/-- a version `(MAJ MIN PAT xPRE xBUILD)`: the arguments of `semver.NewVersion3` -/
-def verOf : List Sexp → Option Ver
-  | [ma, mi, pa, pre, bld] => do
-      let a ← ma.int?; let b ← mi.int?; let c ← pa.int?
-      let p ← pre.bytes?; let q ← bld.bytes?
-      if intOk a && intOk b && intOk c then newVersion3 a b c p q else none
-  | _ => none
-
-def boundOf : Sexp → Option Bound
-  | .list (.atom "eq" :: v) => (verOf v).map fun v => ⟨.eq, v⟩
-  | .list (.atom "ge" :: v) => (verOf v).map fun v => ⟨.ge, v⟩
-  | .list (.atom "gt" :: v) => (verOf v).map fun v => ⟨.gt, v⟩
-  | .list (.atom "le" :: v) => (verOf v).map fun v => ⟨.le, v⟩
-  | .list (.atom "lt" :: v) => (verOf v).map fun v => ⟨.lt, v⟩
-  | _ => none
-
-def arangeOf : Sexp → Option ARange
-  | .list [.atom "se", a, b] => do let x ← boundOf a; let y ← boundOf b; pure (.se x y)
-  | e => (boundOf e).map .simple
 
 partial def valOf : Sexp → Option Val
   | .list [.atom "u"] => some .undef
@@ -107,6 +130,19 @@ partial def tyStr : Ty → String
       (match sz with | some (l, h) => s!" {l} {h}" | none => "") ++ ")"
   | .opt t => "(opt " ++ tyStr t ++ ")"
   | .typ t => "(typ " ++ tyStr t ++ ")"
+  | .nul .dflt => "dflt" | .nul .unit => "unit" | .nul .scalar => "scalar" | .nul .scalarData => "scalardata"
+  | .nul .numeric => "numeric" | .nul .binary => "binary" | .nul .data => "data" | .nul .richData => "richdata"
+  | .nul .semverRange => "semverrange"
+  | .bool none => "(bool n)" | .bool (some b) => "(bool " ++ boolStr b ++ ")"
+  | .coll lo hi => s!"(coll {lo} {hi})"
+  | .un .notUndef t => "(notundef " ++ tyStr t ++ ")" | .un .sensitive t => "(sensitive " ++ tyStr t ++ ")"
+  | .un .iterable t => "(iterable " ++ tyStr t ++ ")" | .un .iterator t => "(iterator " ++ tyStr t ++ ")"
+  | .strSize lo hi => s!"(strs {lo} {hi})"
+  | .strVal v => "(strv " ++ hexB v ++ ")"
+  | .rx p => "(rx " ++ hexB p ++ ")"
+  | .pattern ps => "(pat" ++ String.join (ps.map fun p => " " ++ hexB p) ++ ")"
+  | .tref s => "(tref " ++ hexB s ++ ")"
+  | .semverT o rs => if rangesEq rs matchAllR then "semver" else "(semver " ++ hexB (rangeStr o rs) ++ " " ++ hexB (normStr rs) ++ ")"
 
 partial def valStr : Val → String
   | .undef => "(u)" | .dflt => "(d)"
